@@ -82,19 +82,21 @@ fn judge_no_collapse(plan: &ClientPlan, run: &client::ClientRun, out: &mut RunOu
         return;
     }
     let reads = run.requests_of(0).iter().filter(|r| (r.frame[0], r.frame[1]) == (0x06, 0xc0)).count();
-    if !matches!(o.result, OpResult::Ok(OkVal::Membership(_))) || run.conns.len() != 1 || reads != 1 {
+    // connections opened while read_card itself ran (what Feig::new did before is not its business)
+    let opened_during = run.conns.iter().filter(|c| c.opened_seq >= o.log_from && c.opened_seq < o.log_to).count();
+    if !matches!(o.result, OpResult::Ok(OkVal::Membership(_))) || opened_during != 0 || reads != 1 {
         out.fail(
             "timeout_collapsed",
             "read_card",
             format!(
-                "read_card_timeout = {}: the terminal delivered the card {} ms after its acknowledgement, yet read_card returned {} after {} connection(s) and {} read-card command(s)",
+                "read_card_timeout = {}: the terminal delivered the card {} ms after its acknowledgement, yet read_card returned {} after {} reconnect(s) and {} read-card command(s)",
                 plan.cfg.read_card_timeout,
                 match &plan.ops[0] {
                     OpSpec::ReadCard { card } => card.delay_ms,
                     _ => 0,
                 },
                 o.result.class(),
-                run.conns.len(),
+                opened_during,
                 reads
             ),
         );
